@@ -804,7 +804,7 @@ def scanTab (tab : List Nat) (s : Nat) (_m : Metrics) (p : Pos) : Option (Tok ×
   | none => (none, s)
 
 /-- every filter id rejects exactly the kind-12 (`ws`) tokens -/
-def tabEnv (tab : List Nat) : LexEnv Nat Tok := ⟨scanTab tab, fun _ t => t.kind != 12⟩
+def tabEnv (tab : List Nat) : LexEnv Nat Tok := ⟨scanTab tab, fun _ t => t.kind != 12, fun _ b => ⟨b, 0, b⟩⟩
 
 theorem tab_ok (tab : List Nat) (m : Metrics) : ScanOK (tabEnv tab) m tab.length := by
   constructor
